@@ -2517,7 +2517,7 @@ func (s *sequenceState) opReadDir(ctx context.Context, args *nfsv4.Readdir4args)
 
 	// Validate the cookie verifier.
 	p := s.program
-	if args.Cookie != 0 && args.Cookieverf != p.rebootVerifier && (args.Cookieverf != nfsv4.Verifier4{}) {
+	if args.Cookie != 0 && args.Cookieverf != p.rebootVerifier {
 		return &nfsv4.Readdir4res_default{Status: nfsv4.NFS4ERR_NOT_SAME}
 	}
 
